@@ -55,6 +55,15 @@ TDet(T) == Minors(T)[T.n + 1]
 \* the k-th pivot of elimination without pivoting is f[k] / f[k-1]: some pivot vanishes iff some leading minor does
 SomePivotZero(T) == \E j \in 1..T.n : Minors(T)[j + 1] = 0
 
+\* the same recurrence over Gaussian integers: T + i Ti, minors as pairs <<re, im>>
+RECURSIVE CMinorsFrom(_, _, _, _)
+CMinorsFrom(T, Ti, j, f) == IF j > T.n THEN f
+    ELSE CMinorsFrom(T, Ti, j + 1, Append(f, CSubP(CMulP(<<T.main[j], Ti.main[j]>>, f[j]),
+                                                   CMulP(CMulP(<<T.sub[j - 1], Ti.sub[j - 1]>>, <<T.sup[j - 1], Ti.sup[j - 1]>>), f[j - 1]))))
+CMinors(T, Ti) == CMinorsFrom(T, Ti, 2, <<<<1, 0>>, <<T.main[1], Ti.main[1]>>>>)
+CTDet(T, Ti) == CMinors(T, Ti)[T.n + 1]
+CSomePivotZero(T, Ti) == \E j \in 1..T.n : CMinors(T, Ti)[j + 1] = CZeroP
+
 (* ------------------------------ Part 3 ------------------------------ *)
 \* state of the Thomas algorithm: pc in {"run", "back", "ok", "refused"}, loop index j (0-based like the code),
 \* beta, gamma and u as functions 0..n-1 -> Rat, why = the refusal message
